@@ -647,3 +647,30 @@ M("C32", "matrix normalised by its sum before the search", "kill",
   [(OPTF, "    input_mat = torch.abs(input_matrix)\n", "    input_mat = torch.abs(input_matrix) / torch.abs(input_matrix).sum()\n")], "ARGMIN")
 M("C32", "twin: method spelling of abs", "twin",
   [(OPTF, "    input_mat = torch.abs(input_matrix)\n", "    input_mat = input_matrix.abs()\n")])
+# ---- C20: the formulas are the standard PCHIP formulas
+M("C20", "p2 with the wrong derivative weight", "kill", [(PT, "    p2 = (3.0 * delta - 2.0 * d[:-1] - d[1:]) / h", "    p2 = (3.0 * delta - d[:-1] - 2.0 * d[1:]) / h")], "PCHIP-hermite")
+M("C20", "p3 divided by h instead of h squared", "kill", [(PT, "    p3 = (d[:-1] + d[1:] - 2.0 * delta) / (h * h)", "    p3 = (d[:-1] + d[1:] - 2.0 * delta) / h")], "PCHIP-hermite")
+M("C20", "p1 from the right knot's derivative", "kill", [(PT, "    p1 = d[:-1]\n", "    p1 = d[1:]\n")], "PCHIP-hermite")
+M("C20", "p0 from the right knot's value", "kill", [(PT, "    p0 = y[:-1]\n", "    p0 = y[1:]\n")], "PCHIP-hermite")
+M("C20", "coefficients stacked along axis 0", "kill", [(PT, "    return torch.stack([p0, p1, p2, p3], dim=-1)", "    return torch.stack([p0, p1, p2, p3], dim=0)")], "PCHIP-hermite")
+M("C20", "harmonic-mean weights swapped", "kill", [(PT, "    w_l = h_l + 2.0 * h_r\n    w_r = 2.0 * h_l + h_r\n", "    w_l = 2.0 * h_l + h_r\n    w_r = h_l + 2.0 * h_r\n")], "PCHIP-interior")
+M("C20", "arithmetic instead of harmonic mean", "kill", [(PT, "    return (w_l + w_r) / (w_l / delta_l + w_r / delta_r)", "    return (w_l * delta_l + w_r * delta_r) / (w_l + w_r)")], "PCHIP-interior")
+M("C20", "interior slope kept where a secant is zero", "kill", [(PT, "    mask_same_sign = (delta_l * delta_r) > 0", "    mask_same_sign = (delta_l * delta_r) >= 0")], "PCHIP-interior")
+M("C20", "interior widths taken from the same side", "kill", [(PT, "    h_l, h_r = h[:-1], h[1:]\n", "    h_l, h_r = h[:-1], h[:-1]\n")], "PCHIP-interior")
+M("C20", "interior secants swapped", "kill", [(PT, "    delta_l, delta_r = delta[:-1], delta[1:]\n", "    delta_r, delta_l = delta[:-1], delta[1:]\n")], "PCHIP-interior")
+M("C20", "end slope: weight 2h on the wrong width", "kill", [(PT, "    w1 = 2.0 * h_l + h_r\n    return (w1 * delta_l - h_l * delta_r) / (h_l + h_r)", "    w1 = h_l + 2.0 * h_r\n    return (w1 * delta_l - h_l * delta_r) / (h_l + h_r)")], "PCHIP-endpoint")
+M("C20", "end slope: secants added instead of subtracted", "kill", [(PT, "    return (w1 * delta_l - h_l * delta_r) / (h_l + h_r)", "    return (w1 * delta_l + h_l * delta_r) / (h_l + h_r)")], "PCHIP-endpoint")
+M("C20", "last end slope from the first interval's widths", "kill", [(PT, "    dn = _endpoint_slope(delta[-1], delta[-2], h[-1], h[-2])", "    dn = _endpoint_slope(delta[-1], delta[-2], h[0], h[1])")], "PCHIP-endpoint")
+M("C20", "last end slope with secants in grid order", "kill", [(PT, "    dn = _endpoint_slope(delta[-1], delta[-2], h[-1], h[-2])", "    dn = _endpoint_slope(delta[-2], delta[-1], h[-2], h[-1])")], "PCHIP-endpoint")
+M("C20", "first end slope not limited", "kill", [(PT, "    d[0] = _limit_endpoint(d0, delta[0], delta[1])", "    d[0] = d0")], "PCHIP-endpoint")
+M("C20", "two knots: zero derivative", "kill", [(PT, "        d.fill_(delta[0])\n        return d", "        return d")], "PCHIP-two-points")
+M("C20", "secant without the width", "kill", [(PT, "        delta = (self.y[1:] - self.y[:-1]) / h", "        delta = self.y[1:] - self.y[:-1]")], "PCHIP-setup")
+M("C20", "widths from the raw argument order reversed", "kill", [(PT, "        h = self.x[1:] - self.x[:-1]", "        h = self.x[:-1] - self.x[1:]")], "PCHIP-setup")
+M("C20", "non-strict knot test", "kill", [(PT, "        if not torch.all(x[1:] > x[:-1]):", "        if not torch.all(x[1:] >= x[:-1]):")], "PCHIP-setup")
+M("C20", "interval lookup left-continuous", "kill", [(PT, "        i = torch.searchsorted(self.x, xq, right=True) - 1", "        i = torch.searchsorted(self.x, xq, right=False) - 1")], "PCHIP-eval")
+M("C20", "end cap at twice the secant", "kill", [(PT, "    mask_cap = mask_sign_change & (torch.abs(d_end) > 3.0 * torch.abs(s_l))\n    return torch.where(mask_cap, 3.0 * s_l, d_end)", "    mask_cap = mask_sign_change & (torch.abs(d_end) > 2.0 * torch.abs(s_l))\n    return torch.where(mask_cap, 2.0 * s_l, d_end)")], "PCHIP-end")
+M("C20", "twin: p2/p3 written with 1/h factored", "twin", [(PT, "    p2 = (3.0 * delta - 2.0 * d[:-1] - d[1:]) / h\n    p3 = (d[:-1] + d[1:] - 2.0 * delta) / (h * h)", "    inv_h = 1.0 / h\n    p2 = inv_h * (3.0 * delta - d[1:]) - 2.0 * d[:-1] * inv_h\n    p3 = (d[:-1] - 2.0 * delta + d[1:]) * inv_h**2")])
+M("C20", "twin: harmonic mean as reciprocal of the weighted reciprocal mean", "twin", [(PT, "    return (w_l + w_r) / (w_l / delta_l + w_r / delta_r)", "    total = w_l + w_r\n    return 1.0 / ((w_l / total) / delta_l + (w_r / total) / delta_r)")])
+M("C20", "twin: end slope with the product expanded", "twin", [(PT, "    w1 = 2.0 * h_l + h_r\n    return (w1 * delta_l - h_l * delta_r) / (h_l + h_r)", "    total = h_l + h_r\n    return ((h_l + total) * delta_l - h_l * delta_r) / total")])
+M("C20", "twin: mask written with the constant on the left", "twin", [(PT, "    mask_same_sign = (delta_l * delta_r) > 0", "    mask_same_sign = 0 < (delta_r * delta_l)")])
+M("C20", "twin: secant from a shared difference", "twin", [(PT, "        delta = (self.y[1:] - self.y[:-1]) / h", "        dy = self.y[1:] - self.y[:-1]\n        delta = dy / h")])
